@@ -179,6 +179,13 @@ def run_sched(case):
     outcomes = [[] for _ in range(n)]
     received = [[] for _ in range(n)]
     rmv_fail = [False] * n                # the inner rmv the thread is about to reach raises
+    fevs = []                             # file-level steps of the DiskCacher write: (position in the event list, thread, event)
+    open_files = {}
+
+    def fev(ev):
+        tid_ = s.me()
+        if tid_ is not None and not s.killing:
+            fevs.append([len(s.events), tid_, list(ev)])
 
     def keyinfo(writes):
         tid = s.me()
@@ -222,13 +229,75 @@ def run_sched(case):
 
             def get_set(self, key, getter):
                 g = None
+                ki_ = kpos.get(key, -1)
                 if callable(getter):
                     def g():
-                        return ("%d,%d,%d" % (p[0], p[1] if p[1] is not None else 0, p[2]) for p in getter())
+                        it = getter()
+
+                        def lines():
+                            for p in it:
+                                yield "%d,%d,%d" % (p[0], p[1] if p[1] is not None else 0, p[2])
+                                # DiskCacher asked for the next line: the previous one has been written
+                                fev(("chunk", ki_, p[2], os.path.exists(str(dcache._cache_path(key)))))
+                        return lines()
+                else:
+                    # the read path: what is on disk right now?  (B) at file level
+                    tid_ = s.me()
+                    if tid_ is not None:
+                        w = [t for t in open_files.get(ki_, []) if t != tid_]
+                        path_ = str(dcache._cache_path(key))
+                        if w:
+                            viol.append(("disk-reader-saw-open-file", "thread %d opens the entry %r through DiskCacher.get_set(key, None) while thread %s has its file open "
+                                         "for writing (%d bytes on disk)" % (tid_, key, w, os.path.getsize(path_) if os.path.exists(path_) else -1)))
+                        elif os.path.exists(path_) and os.path.getsize(path_) == 0:
+                            viol.append(("disk-reader-saw-zero-length", "thread %d opens the entry %r while its file is zero-length" % (tid_, key)))
                 with dcache.get_set(key, g) as f:
                     val = [[int(x) for x in ln.strip().split(",")] for ln in f]
                 return nullcontext(val)
         inner = DiskInner()
+        real_gzip = getattr(M, "gzip", None)
+
+        class WFile:
+            """the file DiskCacher writes through: logs open / close and adds a scheduling point after the close"""
+
+            def __init__(self, f, ki_):
+                self._f, self._ki = f, ki_
+
+            def __enter__(self):
+                return self
+
+            def __exit__(self, *exc):
+                self.close()
+                return False
+
+            def close(self):
+                if self._f.closed:
+                    return
+                self._f.close()
+                tid_ = s.me()
+                if tid_ in open_files.get(self._ki, []):
+                    open_files[self._ki].remove(tid_)
+                fev(("close", self._ki))
+                s.yp()          # between the close and get_set returning / the `except:` that removes a failed write
+
+            def __getattr__(self, name):
+                return getattr(self._f, name)
+
+        class GzProxy:
+            def open(self, filename, mode="rb", *a, **k):
+                f = real_gzip.open(filename, mode, *a, **k)
+                tid_ = s.me()
+                if tid_ is None or not any(c in str(mode) for c in "wax+"):
+                    return f
+                ki_ = kpos.get(os.path.basename(str(filename))[:-3], -1)
+                open_files.setdefault(ki_, []).append(tid_)
+                fev(("open", ki_, os.path.getsize(str(filename))))
+                return WFile(f, ki_)
+
+            def __getattr__(self, name):
+                return getattr(real_gzip, name)
+        if real_gzip is not None:
+            M.gzip = GzProxy()
     else:
         inner = M.MemoryCacher()
 
@@ -414,6 +483,8 @@ def run_sched(case):
                 s.log(("raiseBody",))
                 if len(ins) > 1 and ins[1] == "base":
                     raise BodyBaseErr("body")
+                if len(ins) > 1 and ins[1] in ("KeyboardInterrupt", "SystemExit", "GeneratorExit"):
+                    raise {"KeyboardInterrupt": KeyboardInterrupt, "SystemExit": SystemExit, "GeneratorExit": GeneratorExit}[ins[1]]("body")
                 raise BodyError("body")
             elif op == "rmv":
                 ki = ins[1]
@@ -455,6 +526,8 @@ def run_sched(case):
                 outcomes[tid].append("RmvError")
             except BodyBaseErr:
                 outcomes[tid].append("BodyBaseErr")
+            except (KeyboardInterrupt, SystemExit, GeneratorExit) as e:
+                outcomes[tid].append("BodyBaseErr:" + type(e).__name__)
             except BaseErr:
                 outcomes[tid].append("BaseErr")
             except CobaException as e:
@@ -500,6 +573,8 @@ def run_sched(case):
     finally:
         for name, val in undo:
             setattr(M, name, val)
+        if disk_dir is not None and real_gzip is not None:
+            M.gzip = real_gzip
 
     locks = {}
     for (ident, key), val in list(getattr(cc, "_locks", {}).items()):
@@ -522,7 +597,7 @@ def run_sched(case):
         "locks": sorted([[t, k, v] for (t, k), v in locks.items()], key=str),
         "cache": cache, "outcomes": outcomes, "received": received, "viol": viol,
         "base_raised": st["base_raised"], "rmv_failed": st.get("rmv_failed", 0), "spins": st["spins"], "unlocked_writes": arr.unlocked_writes,
-        "getter_ok": getter_ok, "removed": removed, "idx": idxs,
+        "getter_ok": getter_ok, "removed": removed, "idx": idxs, "file_events": fevs,
         "errors": [None if e is None else type(e).__name__ for e in s.errors],
     }
 
@@ -1076,6 +1151,146 @@ def run_openml_threads(case):
         free += 1
     return {"results": results, "alive": alive, "free_permits": free, "permits0": permits0, "requests": net.get("requests", 0),
             "array_nonzero": [[i, v] for i, v in enumerate(cacher._array) if v != 0][:4] if not alive else [], **st}
+
+
+def run_openml_sched(case):
+    """2-4 OpenmlSource readers, each a sequence of reads, on one `openml_semaphore` under the baton scheduler (fake network).
+    Yield points: before every acquire attempt, before every release, every http request, every staggering sleep, every
+    retry sleep of the cacher.  Events: (tid, [acquire|wait|release, free permits afterwards])."""
+    import time as realtime
+    import coba.context.cachers as M
+    import coba.environments.openml as OM
+    from coba.context import CobaContext, NullLogger
+    from coba.environments.openml import OpenmlSource
+    permits0 = int(case.get("permits", 3))
+    progs = [[dict(rd) for rd in p] for p in case["progs"]]
+    n = len(progs)
+    s = Sched(n, make_chooser(case), max_steps=int(case.get("max_steps", 4000)))
+    st = {"free": permits0, "holders": set(), "max_holders": 0, "downloading": set(), "max_downloads": 0, "over": 0,
+          "no_permit_download": 0, "foreign_release": 0}
+    curread = [None] * n
+    reqs = [0] * n
+    results = [[] for _ in range(n)]
+    inner = M.MemoryCacher()
+    cacher = M.ConcurrentCacher(inner)
+    urls = {}
+    kbi_urls = set()
+
+    class Sem:
+        def acquire(self, *a, **k):
+            tid = s.me()
+            while True:
+                s.yp()
+                if st["free"] > 0:
+                    st["free"] -= 1
+                    st["holders"].add(tid)
+                    st["max_holders"] = max(st["max_holders"], len(st["holders"]))
+                    reqs[tid] = 0
+                    rd = curread[tid]
+                    if rd is not None and rd["order"] == "during":
+                        for k_, v_ in rd["entries"].items():      # a peer cached everything while this reader waited
+                            inner._cache.setdefault(k_, list(v_))
+                    s.log(("acquire", st["free"]))
+                    return True
+                s.log(("wait", st["free"]))
+                s.wait_until(lambda: st["free"] > 0)
+
+        def release(self, *a, **k):
+            tid = s.me()
+            s.yp()
+            st["free"] += 1
+            if tid in st["holders"]:
+                st["holders"].discard(tid)
+            else:
+                st["foreign_release"] += 1
+            st["downloading"].discard(tid)
+            if st["free"] > permits0:
+                st["over"] += 1
+            s.log(("release", st["free"]))
+
+    class FakeHttp:
+        def __init__(self, url, *a, **k):
+            self.url = url.split("?")[0]
+
+        def read(self):
+            tid = s.me()
+            reqs[tid] += 1
+            if tid in st["holders"]:
+                st["downloading"].add(tid)
+                st["max_downloads"] = max(st["max_downloads"], len(st["downloading"]))
+            else:
+                st["no_permit_download"] += 1
+            s.yp()
+            if self.url in kbi_urls:
+                raise KeyboardInterrupt()
+            if self.url not in urls:
+                raise RuntimeError("no fake response for " + self.url)
+            return iter(list(urls[self.url]))
+
+    class OMTime:
+        def sleep(self, secs=0):
+            s.yp()
+
+        def __getattr__(self, name):
+            return getattr(realtime, name)
+
+    for t, prog in enumerate(progs):
+        for j, rd in enumerate(prog):
+            rd = dict(rd)
+            data_id = 60000 + 100 * t + j
+            rd["data_id"] = data_id
+            rd["entries"] = openml_entries(data_id, "deactivated" if rd.get("end") == "deactivated" else None)
+            prog[j] = rd
+            if rd["order"] == "before":
+                for k_, v_ in rd["entries"].items():
+                    inner._cache[k_] = list(v_)
+            else:
+                u = openml_urls(rd["entries"])
+                urls.update(u)
+                if rd.get("end") == "interrupt":
+                    kbi_urls.update(x for x in u if "/download/" in x)
+
+    def body(tid):
+        for rd in progs[tid]:
+            curread[tid] = rd
+            s.yp()
+            try:
+                gen = OpenmlSource(data_id=rd["data_id"]).read()
+                if rd.get("end") == "abandon":
+                    it = iter(gen)
+                    next(it)
+                    it.close()
+                    results[tid].append("abandoned")
+                else:
+                    results[tid].append("rows:%d" % len(list(gen)))
+            except KeyboardInterrupt:
+                results[tid].append("KeyboardInterrupt")
+            except Kill:
+                raise
+            except Exception as e:
+                results[tid].append("raised:" + type(e).__name__)
+            curread[tid] = None
+
+    old_cacher, old_store, old_logger = CobaContext.cacher, CobaContext.store, CobaContext.logger
+    saved = (getattr(OM, "HttpSource", None), getattr(OM, "time", None))
+    undo = patch_time(M, FakeTime(s, realtime))
+    try:
+        CobaContext.logger = NullLogger()
+        CobaContext.cacher = cacher
+        CobaContext.store = {"openml_semaphore": Sem()}
+        OM.HttpSource, OM.time = FakeHttp, OMTime()
+        status = s.run([body] * n)
+    finally:
+        OM.HttpSource, OM.time = saved
+        for name, val in undo:
+            setattr(M, name, val)
+        CobaContext.cacher, CobaContext.store, CobaContext.logger = old_cacher, old_store, old_logger
+    return {"status": status, "events": [[t, list(e)] for t, e in s.events], "free": st["free"], "permits0": permits0,
+            "max_holders": st["max_holders"], "max_downloads": st["max_downloads"], "over": st["over"],
+            "no_permit_download": st["no_permit_download"], "foreign_release": st["foreign_release"], "holders_left": sorted(st["holders"]),
+            "results": results, "live": list(getattr(s, "live_at_end", [])), "steps": s.steps,
+            "array_nonzero": [[i, v] for i, v in enumerate(cacher._array) if v != 0][:4],
+            "errors": [None if e is None else type(e).__name__ for e in s.errors]}
 
 
 # ------------------------------------------------------------------ key -> slot must not depend on the interpreter
